@@ -8,6 +8,7 @@ import (
 	"io"
 	"net"
 	"os"
+	"runtime/debug"
 	"sync"
 	"time"
 
@@ -142,7 +143,7 @@ func serveScript(e *route.Engine, sc *scriptConn) (out []byte, err error) {
 		defer close(done)
 		defer func() {
 			if r := recover(); r != nil {
-				err = fmt.Errorf("PANIC in Serve: %v", r)
+				err = fmt.Errorf("PANIC in Serve: %v\n%s", r, debugStack())
 			}
 		}()
 		err = e.Serve(context.Background(), conn)
@@ -167,4 +168,11 @@ func splitAt(b []byte, cuts ...int) [][]byte {
 		prev = c
 	}
 	return append(out, b[prev:])
+}
+
+func debugStack() string {
+	if os.Getenv("VERIF_STACK") == "" {
+		return ""
+	}
+	return string(debug.Stack())
 }
